@@ -41,6 +41,25 @@ func generated(rng *lib.Rng) []Prog {
 	add("hash-empty", `(def e (hash)) [(empty? e) (len e) (str e) (raw2str (json e))]`, "site:hashutils.go:HashIsEmpty")
 	add("json-text-in", "(str (unjson (raw `{\"z\":1, \"y\":2, \"x\":{\"q\":[1,2,{\"w\":3,\"v\":4}]}, \"a\":5, \"m\":null, \"k\":true}`)))", "site:jsonmsgp.go:makeSortedSlicesFromMap")
 	add("json-text-in-keys", "(keys (unjson (raw `{\"z\":1, \"y\":2, \"x\":3, \"w\":4, \"v\":5, \"u\":6, \"t\":7, \"s\":8, \"r\":9}`)))", "site:jsonmsgp.go:makeSortedSlicesFromMap")
+	// comparator-tie candidates for the sorted walks reachable from a script: keys that collide
+	// under case folding (ASCII and Unicode pairs), under numeric reading, under trimming
+	jfold := func(id, obj string) {
+		add("json-keys-"+id, "(def d (unjson (raw `"+obj+"`))) [(str d) (keys d)]", "site:jsonmsgp.go:makeSortedSlicesFromMap", "comparator-ties")
+		add("json-keys-"+id+"-msgpack", "(def d (unjson (raw `"+obj+"`))) (msgpack d)", "site:jsonmsgp.go:makeSortedSlicesFromMap", "comparator-ties")
+	}
+	jfold("case", `{"id":1,"ID":2,"Id":3,"iD":4,"name":5,"NAME":6,"Name":7}`)
+	jfold("unicode-case", `{"é":1,"É":2,"straße":3,"STRASSE":4,"strasse":5,"ǆ":6,"ǅ":7,"Ǆ":8,"σ":9,"ς":10,"Σ":11,"ı":12,"I":13,"i":14,"İ":15}`)
+	jfold("numeric", `{"1":1,"01":2,"1.0":3,"+1":4,"1e0":5,"001":6,"10":7,"9":8,"1 ":9}`)
+	jfold("space-prefix", `{"a":1,"a ":2," a":3,"a\\u0000":4,"ab":5,"A":6,"_a":7,"-a":8}`)
+	jfold("nested-case", `{"x":{"k":1,"K":2,"kk":3,"kK":4,"Kk":5,"KK":6},"X":{"q":[{"w":3,"W":4}]}}`)
+	add("package-case-names", `(def p (package "p" { Ab := 1; AB := 2; Abc := 3; ABc := 4; ABC := 5; A := 6 })) (str p)`, "site:scopes.go:Show", "comparator-ties")
+	add("symnum-case-types", `[(symnum (quote c20two)) (symnum (quote C20Two)) (symnum (quote nestouter)) (symnum (quote NestOuter)) (symnum (quote nestinner)) (symnum (quote NestInner))]`, "site:gotypereg.go:ImportBaseTypes", "comparator-ties")
+	add("cli-countcalls-case", cliPrefix+`(defn ab [] 1) (defn AB [] 2) (defn Ab [] 3) (defn aB [] 4) (ab) (AB) (Ab) (aB) (ab) (+ 1 2)`, "site:repl.go:sortedCountNames", "stdout", "cli", "comparator-ties")
+	// raw encoder output of multi-key hashes and records (the bytes themselves, not the round trip)
+	add("msgpack-raw-nested", `(msgpack (hash zeta:1 alpha:(hash m:1 c:2 x:3 a:4 q:5) mid:[1 2 (hash y:1 b:2 k:3)] beta:"s" gamma:2.5 delta:nil))`, "site:jsonmsgp.go:SexpToGo", "raw-bytes")
+	add("msgpack-raw-record", `(def ev1 (eventdemo id:456 user: (persondemo first:"jay" last:"son") flight:"A" pilot:["u" "2"])) (msgpack ev1)`, "raw-bytes")
+	add("msgpack-raw-defmap", `(defmap ranch) (msgpack (ranch cowboy:"Jim" cowgirl:"Jane" cows:["Zelda" "Montgommery"] acres:12 brand:"lazy8"))`, "raw-bytes")
+	add("json-raw-nested", `(raw2str (json (hash zeta:1 alpha:(hash m:1 c:2 x:3 a:4 q:5) mid:[1 2 (hash y:1 b:2 k:3)] beta:"s" gamma:2.5)))`, "raw-bytes")
 	add("msgpack-nonstring-keys", `(msgpack (hash 1 2 3 4 5 6 7 8))`, "site:jsonmsgp.go:SexpToGo")
 	add("msgpack-mixed-keys", `(msgpack (hash 1 2 3.5 4 (quote a) 6 [1] 8))`, "site:jsonmsgp.go:SexpToGo", "error-candidates")
 	add("msgpack-colliding-keys", `(def c (hash a:1 "a":2 b:3 "b":4 c:5 "c":6)) (str (unmsgpack (msgpack c)))`, "site:jsonmsgp.go:SexpToGo", "colliding-keys")
@@ -111,6 +130,6 @@ func generated(rng *lib.Rng) []Prog {
 	add("sprintf-hash", `(sprintf "%v|%v" (str (hash b:1 a:2)) (str (quote sym)))`)
 	add("env-globals-hash-of-fns", `(def h (hash f:car g:cdr h:(fn [x] x))) (str h)`)
 	add("chars-raw", `[(str (raw "abc")) (str 'c') (str 1.5) (str (quote (a b c)))]`)
-	add("cli-countcalls", cliPrefix+`(def a (+ 1 2)) (def b (* a 3)) (def c (- b 1)) (def l (list a b c)) (def s (str l)) (len s) (car l) (cdr l) (append [1] 2) (concat "a" "b")`, "site:repl.go:runScript", "stdout", "cli")
+	add("cli-countcalls", cliPrefix+`(def a (+ 1 2)) (def b (* a 3)) (def c (- b 1)) (def l (list a b c)) (def s (str l)) (len s) (car l) (cdr l) (append [1] 2) (concat "a" "b")`, "site:repl.go:sortedCountNames", "stdout", "cli")
 	return ps
 }
